@@ -335,7 +335,7 @@ func checkC09(c *ev.Ctx) {
 			det["what"] = "bytes delivered before the error are not a prefix of the content"
 			c.Violation("source-error-wrong-bytes:"+r.Format, det)
 		}
-		if i%30011 == 0 {
+		if i%9973 == 0 {
 			c.Sample(map[string]any{"reader": r.Format, "stream": r.ID, "fail_at_offset": j.k, "forever": j.forever, "error_returned": fmt.Sprint(e)})
 		}
 	})
